@@ -93,6 +93,7 @@ class Printer:
         # resolve=None: an input node the macro never inspected prints as one atom ('ATOM', key): equal on both sides
         self._resolve = resolve
         self.resolve = resolve or (lambda s: s)
+        self.known = None   # solver term -> concrete text learned on the path (front end)
 
     def nm(self, x):
         if isinstance(x, str):
@@ -119,6 +120,9 @@ class Printer:
                 self.node(t[2], out)
             elif k == 'RAW':
                 out.extend(t[2])
+            elif k == 'TKN':
+                from . import front
+                out.extend(front.tk_flat(t[1], self.resolve, self.known))
             elif k == 'COMPILE_ERROR':
                 o = 'macro'
                 self.punct(out, '::', o); self.ident(out, 'core', False, o); self.punct(out, '::', o)
